@@ -1,5 +1,4 @@
-import Abverif.Proofs.Lemmas.SessReply
-import Abverif.Proofs.Lemmas.SessGone
+import Abverif.Proofs.Lemmas.SessEnd
 import Abverif.Model.SessTrace
 /-
 C06 — WAMP sessions end cleanly on every path and leave nothing pending.
@@ -80,68 +79,6 @@ theorem api_fails_fast_after_end (s : Sess) (ht : s.transport = false) :
 /-! the transport reference is dropped by `onClose` and by nothing else: hooks, default bodies and whatever user code
 calls leave it alone -/
 
-/-- `transport` (and the scheduling mode) unchanged -/
-def Stable (s : Sess) (_ : List SOut) (s' : Sess) : Prop := s'.transport = s.transport ∧ s'.mode = s.mode
-
-theorem stableLiftQ : LiftQ Stable (fun _ => True) where
-  refl := fun _ => ⟨rfl, rfl⟩
-  trans := fun h1 h2 => ⟨h2.1.trans h1.1, h2.2.trans h1.2⟩
-  post := fun _ _ => trivial
-  caught := fun r => r
-  quiet := fun _ q => by
-    have := q.life
-    simp only [Sess.life, Life.mk.injEq] at this
-    exact ⟨this.2.1, this.1⟩
-  lifeApi := fun {s} a ha _ => by
-    cases a <;> simp [Api.isLife] at ha
-    · simp only [apiStep, apiJoin]; split <;> (try split) <;> exact ⟨rfl, rfl⟩
-    · simp only [apiStep, apiLeave]; split <;> (try split) <;> (try split) <;> exact ⟨rfl, rfl⟩
-    · simp only [apiStep, apiDisconnect]; split <;> exact ⟨rfl, rfl⟩
-
-theorem emitCb_stable (s : Sess) (o : SOut) : Stable s (emitCb s o).2 (emitCb s o).1 := by
-  have := emitCb_life s o
-  simp only [Sess.life, Life.mk.injEq] at this
-  exact ⟨this.2.1, this.1⟩
-
-theorem stable_trans {s1 s2 s3 : Sess} {o1 o2 o3 : List SOut} (h1 : Stable s1 o1 s2) (h2 : Stable s2 o2 s3) : Stable s1 o3 s3 :=
-  ⟨h2.1.trans h1.1, h2.2.trans h1.2⟩
-
-theorem runHook_stable (s : Sess) (h : Hook) (arg : Nat) (act : HAct) (body : Sess → Sess × List SOut)
-    (hb : ∀ s, Stable s (body s).2 (body s).1) : Stable s (runHook s h arg act body).2 (runHook s h arg act body).1 := by
-  unfold runHook
-  have hb1 : Stable s (if act.dflt then body s else (s, [])).2 (if act.dflt then body s else (s, [])).1 := by
-    split
-    · exact hb s
-    · exact ⟨rfl, rfl⟩
-  generalize (if act.dflt = true then body s else (s, [])) = r1 at hb1 ⊢
-  simp only []
-  split
-  · exact hb1
-  · exact stable_trans hb1 (stableLiftQ.toLift.runCalls trivial none act.calls)
-
-theorem deferLeaf_closeIfTransport_stable (s : Sess) : Stable s (deferLeaf s .closeIfTransport).2 (deferLeaf s .closeIfTransport).1 := by
-  unfold deferLeaf
-  split
-  · simp only [runLeaf]; split <;> exact ⟨rfl, rfl⟩
-  · exact ⟨rfl, rfl⟩
-
-theorem onLeaveDefault_stable (s : Sess) (reason : Nat) : Stable s (onLeaveDefault s reason).2 (onLeaveDefault s reason).1 := by
-  unfold onLeaveDefault
-  have h1 : Stable s (rejectList s.clearTables (.closed reason) s.outstanding).2 (rejectList s.clearTables (.closed reason) s.outstanding).1 :=
-    stableLiftQ.quiet trivial (Quiet.congr_left (rejectList_quiet _ _ _) rfl rfl)
-  exact stable_trans h1 (deferLeaf_closeIfTransport_stable _)
-
-theorem onDisconnectDefault_stable (s : Sess) : Stable s (onDisconnectDefault s).2 (onDisconnectDefault s).1 :=
-  stableLiftQ.quiet trivial (Quiet.congr_left (rejectList_quiet _ _ _) rfl rfl)
-
-theorem leaveHook_stable (s : Sess) (reason : Nat) (act : HAct) : Stable s (leaveHook s reason act).2 (leaveHook s reason act).1 := by
-  unfold leaveHook
-  exact stable_trans (runHook_stable s .onLeave reason act _ (fun s => onLeaveDefault_stable s reason)) (emitCb_stable _ _)
-
-theorem disconnectHook_stable (s : Sess) (act : HAct) : Stable s (disconnectHook s act).2 (disconnectHook s act).1 := by
-  unfold disconnectHook
-  exact stable_trans (runHook_stable s .onDisconnect 0 act _ onDisconnectDefault_stable) (emitCb_stable _ _)
-
 /-- after `onClose` — whatever the hooks do, in both scheduling modes — the session holds no transport and no session
 id: from here on (until the object is given a new transport) `api_fails_fast_after_end` applies -/
 theorem closed_ends_everything (s : Sess) (acts : List HAct) :
@@ -156,6 +93,47 @@ theorem closed_ends_everything (s : Sess) (acts : List HAct) :
 /-- … and it stays so under everything but a new `onOpen`: user code (API calls of any kind) cannot bring it back -/
 theorem api_keeps_transport_down (s : Sess) (a : Api) : (step s (.api a)).1.transport = s.transport :=
   (stableLiftQ.toLift.api a trivial).1
+
+/-- `transport_written_only_by_onOpen_and_onClose`: no other event — message of any kind, API call, loop iteration,
+completion of an endpoint result, … with whatever user code runs inside — changes whether the session holds a
+transport. So after `onClose` the API guard of `api_fails_fast_after_end` applies until the object is opened again. -/
+theorem transport_written_only_by_onOpen_and_onClose (s : Sess) (e : SEv) (ho : ∀ acts, e ≠ .open_ acts) (hc : ∀ acts, e ≠ .closed acts) :
+    (step s e).1.transport = s.transport := by
+  cases e with
+  | api a => exact (stableLiftQ.toLift.api a trivial).1
+  | msg m beh =>
+    simp only [step, onMessage]
+    split
+    · exact (preSession_stable s beh m).1
+    · exact (onEstablished_stable s beh m).1
+  | pump => exact (drain_stable 8 s).1
+  | tick => exact (stable_trans (s2 := { s with cbq := [] }) (o1 := []) (o3 := []) ⟨rfl, rfl⟩ (tickList_stable _ _)).1
+  | open_ acts => exact absurd rfl (ho acts)
+  | closed acts => exact absurd rfl (hc acts)
+  | fault l => rfl
+  | resolve r v => exact (settleInv_stable s r _).1
+  | fail r x => exact (settleInv_stable s r _).1
+  | lateProgress r v => exact (lateProgress_stable s r v).1
+
+/-- `api_fails_fast_after_end`, over whole histories: after `onClose`, through any continuation that does not open the
+object again, every `call()` raises `TransportLost` at once and changes nothing (likewise publish / subscribe /
+register, see `api_fails_fast_after_end`) -/
+theorem api_fails_fast_after_end_history (s : Sess) (acts : List HAct) (h2 : List SEv) (hno : ∀ e ∈ h2, ∀ a, e ≠ .open_ a)
+    (u : Uri) (a : Args) (k : Kwargs) (o : Option CallOpts) (r : SendRes) :
+    let s' := runState (step s (.closed acts)).1 h2
+    step s' (.api (.call u a k o r)) = (s', [.raise_ .transportLost]) := by
+  have key : ∀ (t : Sess) (h : List SEv), t.transport = false → (∀ e ∈ h, ∀ a, e ≠ .open_ a) → (runState t h).transport = false := by
+    intro t h
+    induction h generalizing t with
+    | nil => intro ht _; exact ht
+    | cons e es ih =>
+      intro ht hn
+      rw [runState_cons]
+      refine ih _ ?_ (fun e' he' => hn e' (List.mem_cons_of_mem _ he'))
+      by_cases hcl : ∃ acts, e = .closed acts
+      · obtain ⟨acts, rfl⟩ := hcl; exact closed_ends_everything t acts
+      · rw [transport_written_only_by_onOpen_and_onClose t e (hn e List.mem_cons_self) (fun acts he => hcl ⟨acts, he⟩)]; exact ht
+  exact (api_fails_fast_after_end _ (key _ h2 (closed_ends_everything s acts) hno)).1 u a k o r
 
 /-! ## goodbye_at_most_once / goodbye_answered_iff_not_initiator -/
 
@@ -199,84 +177,6 @@ theorem goodbye_at_most_once_steps (s : Sess) :
   · unfold apiJoin; split <;> (try split) <;> rfl
 
 /-! ## nothing_pending_after_end -/
-
-theorem clearTables_tbl (s : Sess) (k : Kind) : s.clearTables.tbl k = [] := by cases k <;> rfl
-
-theorem rejectList_tbl (s : Sess) (o : Outcome) (fs : List FutId) (k : Kind) : (rejectList s o fs).1.tbl k = s.tbl k := by
-  induction fs generalizing s with
-  | nil => rfl
-  | cons f fs ih =>
-    rw [rejectList_cons]; split
-    · exact ih s
-    · simp only []; rw [ih, settle_tbl]
-
-/-- the default clean-up body: afterwards the six tables are empty -/
-theorem errback_outstanding_empties (s : Sess) (o : Outcome) (k : Kind) :
-    (rejectList s.clearTables o s.outstanding).1.tbl k = [] := by
-  rw [rejectList_tbl, clearTables_tbl]
-
-theorem settle_called_self {s : Sess} {f : Nat} (hf : f < s.futs.length) (o : Outcome) : (settle s f o).1.called f = true := by
-  have hx : s.futs[f]? = some s.futs[f] := by simp [hf]
-  unfold settle
-  rw [hx]
-  simp only []
-  split
-  · next hc => simp [called_eq, hf, hc]
-  · split
-    · rw [called_eq, (emitCb_fields _ _).2.2.1]; simp [hf]
-    · simp [called_eq, hf]
-
-theorem settle_called_mono {s : Sess} (f g : Nat) (o : Outcome) (h : s.called g = true) : (settle s f o).1.called g = true := by
-  unfold settle
-  split
-  · exact h
-  · next x hx =>
-    have key : ∀ y : Fut, (y.cell.isSome = true ∨ f ≠ g) → y.cell.isSome = x.cell.isSome ∨ y.cell.isSome = true →
-        Sess.called { s with futs := s.futs.set f y } g = true := by
-      intro y _ hy
-      rw [called_eq] at h ⊢
-      by_cases e : f = g
-      · subst e
-        simp only [hx] at h
-        have hl : f < s.futs.length := by
-          rcases Nat.lt_or_ge f s.futs.length with h1 | h1
-          · exact h1
-          · simp [List.getElem?_eq_none h1] at hx
-        simp only [List.getElem?_set_self hl]
-        rcases hy with hy | hy
-        · rw [hy]; exact h
-        · exact hy
-      · simpa [List.getElem?_set_ne e] using h
-    split
-    · exact key _ (Or.inl (by simp [*])) (Or.inl rfl)
-    · split
-      · rw [called_eq, (emitCb_fields _ _).2.2.1, ← called_eq]
-        exact key _ (Or.inl rfl) (Or.inr rfl)
-      · exact key _ (Or.inl rfl) (Or.inr rfl)
-
-theorem settle_futs_length (s : Sess) (f : Nat) (o : Outcome) : (settle s f o).1.futs.length = s.futs.length :=
-  (settle_fields s f o).2.1
-
-theorem rejectList_called (s : Sess) (o : Outcome) (fs : List FutId) :
-    (∀ g, s.called g = true → (rejectList s o fs).1.called g = true) ∧
-    (∀ f ∈ fs, (f : Nat) < s.futs.length → (rejectList s o fs).1.called f = true) := by
-  induction fs generalizing s with
-  | nil => exact ⟨fun g h => h, fun f hf => by simp at hf⟩
-  | cons f fs ih =>
-    rw [rejectList_cons]
-    split
-    · next hc =>
-      obtain ⟨i1, i2⟩ := ih s
-      refine ⟨i1, fun g hg hl => ?_⟩
-      rcases List.mem_cons.mp hg with e | e
-      · subst e; exact i1 _ hc
-      · exact i2 g e hl
-    · obtain ⟨i1, i2⟩ := ih (settle s f o).1
-      simp only []
-      refine ⟨fun g h => i1 g (settle_called_mono f g o h), fun g hg hl => ?_⟩
-      rcases List.mem_cons.mp hg with e | e
-      · subst e; exact i1 _ (settle_called_self hl o)
-      · exact i2 g e (by rw [settle_futs_length]; exact hl)
 
 /-- `nothing_pending_after_end` (the default clean-up body, which `onLeave` runs when a session ends or the router aborts
 and `onDisconnect` runs as the backstop when the transport goes): every request recorded in any of the six tables has its
